@@ -1,0 +1,78 @@
+//go:build verif
+
+// Contracts for the deductive verifier under /verif (comment-only; never compiled into oxy).
+package roundrobin
+
+// ---- spec vocabulary ------------------------------------------------------------------
+
+//@ spec GCD(a int, b int) int
+//@ axiom gcd_base: forall a int :: a >= 0 ==> GCD(a, 0) == a
+//@ axiom gcd_step: forall a int, b int :: a >= 0 && b > 0 ==> GCD(a, b) == GCD(b, a % b)
+//@ axiom gcd_nonneg: forall a int, b int :: a >= 0 && b >= 0 ==> GCD(a, b) >= 0
+
+//@ spec wgcd(r *RoundRobin, k int) int reads RoundRobin.servers server.weight elems(*server)
+//@ axiom wgcd_one: forall r *RoundRobin :: len(r.servers) >= 1 ==> wgcd(r, 1) == r.servers[0].weight
+//@ axiom wgcd_step: forall r *RoundRobin, k int :: 1 < k && k <= len(r.servers) ==> wgcd(r, k) == GCD(wgcd(r, k-1), r.servers[k-1].weight)
+
+//@ pred poolOK(r *RoundRobin) = forall i int :: 0 <= i && i < len(r.servers) ==> r.servers[i] != nil && r.servers[i].weight >= 0
+//@ pred iterOK(r *RoundRobin) = (r.index == -1 && r.currentWeight == 0) || (0 <= r.index && r.index < len(r.servers) && r.currentWeight >= 1 && r.servers[r.index].weight >= r.currentWeight)
+//@ pred isMax(r *RoundRobin, m int) = (forall i int :: 0 <= i && i < len(r.servers) ==> r.servers[i].weight <= m) && (exists j int :: 0 <= j && j < len(r.servers) && r.servers[j].weight == m)
+//@ pred below(r *RoundRobin, lo int, hi int, c int) = forall k int :: lo < k && k < hi ==> r.servers[k].weight < c
+//@ pred nextLevel(c int, g int, m int) = ite(c - g <= 0, m, c - g)
+//@ pred succA(r *RoundRobin, i0 int, c0 int, i1 int, c1 int) = 0 <= i0 && i0 < i1 && i1 < len(r.servers) && c1 == c0 && r.servers[i1].weight >= c0 && below(r, i0, i1, c0)
+//@ pred succB(r *RoundRobin, i0 int, c0 int, i1 int, c1 int, g int, m int) = (i0 == -1 || below(r, i0, len(r.servers), c0)) && c1 == ite(c0 - g <= 0, m, c0 - g) && 0 <= i1 && i1 < len(r.servers) && r.servers[i1].weight >= c1 && below(r, -1, i1, c1)
+
+//@ type RoundRobin
+//@   immutable mutex next errHandler stickySession requestRewriteListener verbose log
+//@   guarded_by mutex: index servers currentWeight
+//@   lockinv mutex (r): pool_ok: poolOK(r)
+//@   lockinv mutex (r): iter_ok: iterOK(r)
+
+//@ type server
+//@   immutable url
+//@   guarded_by RoundRobin.mutex: weight
+
+// ---- C01: selection is the cyclic successor on the (level, index) grid -------------------
+
+//@ func gcd
+//@   props C01
+//@   requires a >= 0 && b >= 0
+//@   ensures euclid: result == GCD(a, b)
+//@   loop 1 invariant a >= 0 && b >= 0 && GCD(a, b) == GCD(a0, b0)
+//@   loop 1 decreases b
+
+//@ func (*RoundRobin).weightGcd
+//@   props C01
+//@   holds r.mutex
+//@   requires poolOK(r)
+//@   ensures empty: len(r.servers) == 0 ==> result == -1
+//@   ensures fold: len(r.servers) > 0 ==> result == wgcd(r, len(r.servers)) && result >= 0
+//@   loop 1 invariant -1 <= rangeindex && rangeindex < len(r.servers)
+//@   loop 1 invariant rangeindex == -1 ==> divisor == -1
+//@   loop 1 invariant rangeindex >= 0 ==> divisor >= 0 && divisor == wgcd(r, rangeindex + 1)
+
+//@ func (*RoundRobin).maxWeight
+//@   props C01
+//@   holds r.mutex
+//@   requires poolOK(r)
+//@   ensures empty: len(r.servers) == 0 ==> result == -1
+//@   ensures max: len(r.servers) > 0 ==> isMax(r, result)
+//@   loop 1 invariant -1 <= rangeindex && rangeindex < len(r.servers)
+//@   loop 1 invariant rangeindex == -1 ==> maxWeight == -1
+//@   loop 1 invariant forall i int :: 0 <= i && i <= rangeindex ==> r.servers[i].weight <= maxWeight
+//@   loop 1 invariant rangeindex >= 0 ==> (exists j int :: 0 <= j && j <= rangeindex && r.servers[j].weight == maxWeight)
+
+//@ func (*RoundRobin).nextServer
+//@   props C01 C02
+//@   atomic r.mutex
+//@   modifies r.index, r.currentWeight
+//@   ensures empty_pool: len(r.servers) == 0 ==> result0 == nil && result1 != nil && r.index == old(r.index) && r.currentWeight == old(r.currentWeight)
+//@   ensures error_or_server: (result1 == nil) <==> (result0 != nil)
+//@   ensures all_zero: len(r.servers) > 0 && isMax(r, 0) ==> result1 != nil
+//@   ensures some_positive: len(r.servers) > 0 && !isMax(r, 0) ==> result1 == nil
+//@   ensures selected: result1 == nil ==> 0 <= r.index && r.index < len(r.servers) && result0 == r.servers[r.index] && result0.weight >= r.currentWeight && r.currentWeight >= 1
+//@   ensures successor: result1 == nil ==> (forall m int :: isMax(r, m) ==> succA(r, old(r.index), old(r.currentWeight), r.index, r.currentWeight) || succB(r, old(r.index), old(r.currentWeight), r.index, r.currentWeight, wgcd(r, len(r.servers)), m))
+//@   loop 1 invariant poolOK(r) && len(r.servers) > 0 && gcd == wgcd(r, len(r.servers)) && gcd >= 0 && isMax(r, maxWeight)
+//@   loop 1 invariant iterOK_old: (old(r.index) == -1 && old(r.currentWeight) == 0) || (0 <= old(r.index) && old(r.index) < len(r.servers) && old(r.currentWeight) >= 1 && r.servers[old(r.index)].weight >= old(r.currentWeight))
+//@   loop 1 invariant phase: (r.currentWeight == old(r.currentWeight) && old(r.index) <= r.index && r.index < len(r.servers) && below(r, old(r.index), r.index + 1, old(r.currentWeight)))
+//@     || ((old(r.index) == -1 || below(r, old(r.index), len(r.servers), old(r.currentWeight))) && r.currentWeight == ite(old(r.currentWeight) - gcd <= 0, maxWeight, old(r.currentWeight) - gcd) && r.currentWeight >= 1 && 0 <= r.index && r.index < len(r.servers) && below(r, -1, r.index + 1, r.currentWeight))
